@@ -524,3 +524,50 @@ func VfC04_BlockAddresses() {
 	closed, _ := hClosed(m)
 	vfAssert("C04.blockaddresses.closed", closed)
 }
+
+// VfC04_LabelLists: several terminators that carry a list of labels in one
+// module: an indirectbr in each of two functions, a second indirectbr and a
+// catchswitch with two handlers in the first, with the same (symbolic) label
+// names in both functions: every element of every list is the block of that
+// name in the enclosing function, in the order written; closure walk.
+//
+//vf:unwind 400
+func VfC04_LabelLists() {
+	a, b := hTwoLetters("a", "b")
+	fn := func(name string) string {
+		return "define void @" + name + "(i8* %p) personality i8* null {\nentry:\n\tindirectbr i8* %p, [label %" + a + ", label %" + b + ", label %" + a + "]\n" +
+			a + ":\n\tindirectbr i8* %p, [label %" + b + ", label %cs]\n" +
+			b + ":\n\tret void\n" +
+			"cs:\n\t%s = catchswitch within none [label %h1, label %h2] unwind to caller\n" +
+			"h1:\n\t%c1 = catchpad within %s []\n\tcatchret from %c1 to label %" + b + "\n" +
+			"h2:\n\t%c2 = catchpad within %s []\n\tcatchret from %c2 to label %" + a + "\n}\n"
+	}
+	src := fn("f") + fn("g")
+	m, err := ParseString("t.ll", src)
+	vfReach("C04.label-lists")
+	vfObserveStr("src", src)
+	vfAssert("C04.label-lists.accepted", err == nil)
+	if err != nil {
+		return
+	}
+	for k := 0; k < 2; k++ {
+		f := m.Funcs[k]
+		vfAssert("C04.label-lists.blocks", len(f.Blocks) == 6)
+		if len(f.Blocks) != 6 {
+			return
+		}
+		entry, ba, bb, cs, h1, h2 := f.Blocks[0], f.Blocks[1], f.Blocks[2], f.Blocks[3], f.Blocks[4], f.Blocks[5]
+		ib1, ok1 := entry.Term.(*ir.TermIndirectBr)
+		ib2, ok2 := ba.Term.(*ir.TermIndirectBr)
+		sw, ok3 := cs.Term.(*ir.TermCatchSwitch)
+		vfAssert("C04.label-lists.kinds", vfAnd(ok1, vfAnd(ok2, ok3)))
+		if !ok1 || !ok2 || !ok3 {
+			return
+		}
+		vfAssert("C04.label-lists.first-indirectbr", vfAnd(len(ib1.ValidTargets) == 3, vfAnd(ib1.ValidTargets[0] == value.Value(ba), vfAnd(ib1.ValidTargets[1] == value.Value(bb), ib1.ValidTargets[2] == value.Value(ba)))))
+		vfAssert("C04.label-lists.second-indirectbr", vfAnd(len(ib2.ValidTargets) == 2, vfAnd(ib2.ValidTargets[0] == value.Value(bb), ib2.ValidTargets[1] == value.Value(cs))))
+		vfAssert("C04.label-lists.catchswitch-handlers", vfAnd(len(sw.Handlers) == 2, vfAnd(sw.Handlers[0] == value.Value(h1), sw.Handlers[1] == value.Value(h2))))
+	}
+	closed, _ := hClosed(m)
+	vfAssert("C04.label-lists.closed", closed)
+}
